@@ -289,6 +289,48 @@ PROPS["C20"] = {
     "thorough": {"cases": 20000, "floor": 2500, "time_budget": 3000},
 }
 
+PROPS["C15"] = {
+    "worker": "c15", "variant": "chk", "level": "exploration",
+    "rule": ("case = single-frame lossless Modular image with known samples (imggen or the C15 builder: grey/RGB/ICC-declared CMYK, extra "
+             "channels Alpha/Black/Spot/Depth/Mask/Cfa/Thermal/(Non)Optional with own depth, depth 1..31/f16/f24/f32, optional frame crop) "
+             "x orientation 1..8 x region (default/full/interior/pixel/strip/edge/overhang/outside, 1-3 regions per decoder instance) x pool x "
+             "wide buffers x spot rendering on/off; compares width/height/pixel_format, image_all_channels, every image_planar[c], "
+             "stream/stream_no_alpha <f32|u16|u8> and chunked write_to_buffer against the truth moved by an EXIF-table orientation map. "
+             "signature = (layout, depth class, orientation, region class, partial stream type, spot on/off); non-trivial iff >=4 in-image "
+             "pixels requested and the image is not constant"),
+    "assumptions": [
+        "region pixels outside the image read 0 in every output; when the frame has samples beyond the canvas they are only checked for agreement between buffers",
+        "exact f32 equality for integer samples with d<=24,|v|<=2^24, else 2.5e-7 relative; integer streams accept either neighbour within 0.01 (u16) / 1e-3 (u8) of the rounding boundary",
+        "custom floats < 32 bit: IEEE reading incl. zero/subnormals; all-ones exponent and out-of-range patterns unjudged",
+        "single keyframe; extra channels at full resolution; image sides <=260 quick / <=600 thorough",
+    ],
+    "level_text": "exploration: tens of thousands of (image, orientation, region, output type) combinations per run, per-sample oracle against an independent model",
+    "level_note": "trusted: jxlgen encoder + EXIF-derived orientation model in c15.rs",
+    "technique": "runtime differential monitor: independent encoder + EXIF-derived orientation model -> real decoder outputs, per-sample oracle",
+    "quick": {"cases": 40000, "floor": 6000, "time_budget": 240},
+    "thorough": {"cases": 700000, "floor": 120000, "time_budget": 3000},
+}
+
+PROPS["C07"] = {
+    "worker": "c07", "variant": "chk", "level": "exploration",
+    "rule": ("case = workload (multi-group lossless Modular image, multi-frame image with reference chains incl. multi-group canvases, or the "
+             "real VarDCT multi-frame fixture cmyk_layers.jxl; 1/6 bit-flipped) rendered under: no pool (baseline), repeated render on the same "
+             "object, rayon pools of 1..16 threads, seeded job-order permutations of every for_each_* (hook H4; legal alternative schedules, "
+             "also without threads), and 2..6 OS threads calling render_frame concurrently on one shared image with a rayon pool. Oracle: all "
+             "outputs of one keyframe bit-identical (f32::to_bits) and success/failure class identical across every configuration. "
+             "signature = (workload class, valid/mutated, keyframes, ok count); observed set 'configs' lists the configurations compared"),
+    "assumptions": [
+        "generated VarDCT streams are not part of the workload yet (only the one real fixture); race detection by TSan/Miri is part of C02's sanitizer runs",
+        "error text may differ between configurations (shared error slot keeps the last writer); only the Ok/Err class is compared",
+        "a spurious IncompleteFrame under concurrent callers is the C20 known finding and is reported under its signature",
+    ],
+    "level_text": "exploration: each workload under 10..20 thread / schedule configurations, bit-exact differential oracle",
+    "level_note": "trusted: hook H4 permutation (add-only), comparison code in c07.rs",
+    "technique": "runtime differential monitor across thread-pool sizes, permuted job orders and concurrent callers; bit-exact comparison",
+    "quick": {"cases": 500, "floor": 80, "time_budget": 240},
+    "thorough": {"cases": 20000, "floor": 3000, "time_budget": 3000},
+}
+
 ALL = ["C%02d" % i for i in range(1, 21)]
 HOOK_COMMITS = ["27cc801", "8f68576", "99816ae", "c29f982"]
 NOT_APPLICABLE = {p: "check not built yet in this session (work in progress; see DESIGN.md section 9 for order)" for p in ALL if p not in PROPS}
